@@ -104,6 +104,55 @@ def run(facts, R):
         R.check(ok, "size-writer-pairs", streamer, "%s streaming writer uses the same pair on the same slice" % kind,
                 "streaming sibling does not frame (size(slice), |w| writer(w, slice))", sb.span, "body_len = %s(slice); body = %s(w, slice)" % (sizefn.split("::")[1], writefn.split("::")[1]))
         _format_is_beve(facts, R, sb, ss, beve_code, "header::Header", "body_format")
+    # every streaming frame, whoever writes it: the declared body length and the bytes the body closure writes come from one
+    # documented pair over the same value - (len(x), write_all(x)), (typed_slice_size(x), to_writer_typed_slice(w, x)),
+    # (complex_slice_size(x), to_writer_complex_slice(w, x)) - written straight into the frame's writer.  A streaming sibling
+    # added later that declares one encoder's size and emits through another (or through an adaptor that rewrites the bytes)
+    # cannot be shown to emit the builder's frame for every slice, the empty one included
+    SPAIRS = {"beve::typed_slice_size": "beve::to_writer_typed_slice", "beve::complex_slice_size": "beve::to_writer_complex_slice"}
+    n_stream = 0
+    for sname in ("io::write_message_streaming", "async_io::write_message_streaming_async"):
+        for b_, i_, t_ in facts.calls_to(sname):
+            if len(t_["args"]) < 5:
+                continue
+            n_stream += 1
+            s_ = Sym(b_)
+            blen, clo = s_.op(t_["args"][3]), s_.op(t_["args"][4])
+            ok, det = False, "closure %s" % render(clo)[:60]
+            if clo[0] == "agg" and str(clo[1]).startswith("closure:") and str(clo[1]).split(":", 1)[1] in facts.bodies:
+                cb = facts.body(str(clo[1]).split(":", 1)[1])
+                cs = Sym(cb)
+                caps = dict(clo[3])
+                emits = [(ci, ct) for ci, ct in cb.calls() if ct["callee"]["name"] in ("write_all", "write", "write_vectored", "write_fmt", "extend_from_slice") or ct["callee"]["path"].startswith("beve::")
+                         or ct["callee"]["path"] in facts.bodies]
+
+                def _cap(e):
+                    while e[0] == "call" and len(e[2]) == 1 and e[1].rsplit("::", 1)[-1] in ("deref", "as_ref", "borrow", "as_slice"):
+                        e = e[2][0]
+                    if e[0] == "field" and e[1][0] == "arg" and e[1][1] == 1:
+                        return caps.get(e[2])
+                    return None
+                det = "declared %s; closure emits %s" % (render(blen)[:80], [ct["callee"]["path"].rsplit("::", 2)[-1] + "(" + ", ".join(render(cs.op(a_))[:30] for a_ in ct["args"]) + ")" for _, ct in emits])
+                if len(emits) == 1 and len(emits[0][1]["args"]) == 2:
+                    ct = emits[0][1]
+                    to_w = cs.op(ct["args"][0])
+                    to_w_ok = to_w[0] == "arg" and to_w[1] == 2
+                    x = _cap(cs.op(ct["args"][1]))
+                    bl = blen
+                    while bl[0] == "cast" and len(bl) > 2 and isinstance(bl[2], tuple):
+                        bl = bl[2]
+                    if ct["callee"]["name"] == "write_all" and to_w_ok and x is not None and is_call(bl, "len") and bl[2]:
+                        y = bl[2][0]
+                        while y[0] == "call" and len(y[2]) == 1 and y[1].rsplit("::", 1)[-1] in ("deref", "as_ref", "borrow", "as_slice"):
+                            y = y[2][0]
+                        ok = y == x
+                    elif to_w_ok and x is not None and bl[0] == "call" and SPAIRS.get(bl[1]) == ct["callee"]["path"] and bl[2]:
+                        ok = bl[2][0] == x
+            R.check(ok, "size-writer-pairs", b_.path, "a streamed frame declares the length of what its body closure writes",
+                    "%s streams a frame whose declared body length and body writer are not one documented pair over the same value (%s): "
+                    "the frame is not provably the buffered builder's frame for every input (empty slices included)" % (b_.path.rsplit("::", 1)[-1], det), t_.get("span"), det[:160])
+    R.floor("size-writer-pairs", n_stream, 3, "write_message_streaming call sites")
+
     # aligned
     ab = facts.body("message::MessageBuilder::body_aligned_typed_slice")
     aff = Affine(ab, facts)
